@@ -84,6 +84,86 @@ theorem C15_body_complete (fmt : Int → Str) (ds : Dataset) (hds : ds.WF) (path
 theorem C15_constrain_wf (ds cds : Dataset) (proj : List ProjItem) (sel : List Str) (hds : ds.WF)
     (h : constrain ds proj sel = .ok cds) : cds.WF := constrain_wf ds cds proj sel hds h
 
+/-- **A hyperslab is applied or rejected inside the guarded region — nothing is left to the body**
+    (`check_hyperslab`, the repair of the finding "200, then the body raises"): on an array of any
+    shape, a slice tuple is either accepted — at most as many slices as dimensions, every slice
+    starting inside its axis, not empty or inverted, stride ≥ 1; a last index beyond the extent is
+    clipped — and the array is replaced by numpy's selection, or `ConstraintExpressionError` is
+    raised.  No other outcome exists: the former unresolved region of the model is gone. -/
+theorem C15_hyperslab_applied_or_rejected (b : Base) (sl : List PSlice) :
+    (sl.length ≤ b.shape.length ∧ (List.zipWith validSl b.shape sl).all id = true ∧
+      sliceBase b sl = .ok { b with
+        shape := (List.zipWith sel b.shape (padSl b.shape.length sl)).map List.length,
+        data := selND b.shape (List.zipWith sel b.shape (padSl b.shape.length sl)) b.data,
+        kind := .arr }) ∨
+    (¬ (sl.length ≤ b.shape.length ∧ (List.zipWith validSl b.shape sl).all id = true) ∧
+      sliceBase b sl = .error .ceError) := by
+  unfold sliceBase
+  split
+  · rename_i h; exact .inl ⟨h.1, h.2, rfl⟩
+  · rename_i h; exact .inr ⟨h, rfl⟩
+
+/-- what `check_hyperslab` accepts on one axis, spelled out on the parsed hyperslab `[a:k:b]`
+    (start `a`, stop `b + 1`, step `k`): `0 ≤ a < N`, `a ≤ b`, `k ≥ 1` — `b` may exceed `N - 1` -/
+theorem C15_valid_axis (N : Nat) (a k b : Int) :
+    validSl N ⟨some a, some (b + 1), some k⟩ = true ↔ (0 ≤ a ∧ a < N ∧ a ≤ b ∧ 1 ≤ k) := by
+  simp only [validSl, Option.getD_some, decide_eq_true_eq]
+  omega
+
+/-- a projection `name[hyperslab]` of a top-level array never ends in the unresolved class: the slice
+    pass answers with the sliced output or raises inside the guarded region -/
+theorem C15_array_slice_resolved (out : List Var) (n : Str) (sl : List PSlice) (b : Base)
+    (hf : findVar out n = some (.base b)) :
+    slice1 out (.path [(n, sl)]) ≠ .error .unspecified := by
+  simp only [slice1]
+  split
+  · simp
+  · simp only [hf, bind, Except.bind, pure, Except.pure]
+    rcases C15_hyperslab_applied_or_rejected b sl with ⟨_, _, h⟩ | ⟨_, h⟩ <;> simp [h]
+
+/-- the same for a member of a structure and for a member of a structure nested in a structure -/
+theorem C15_member_slice_resolved (out : List Var) (n m : Str) (sl : List PSlice) (ms : List Member) (b : Base)
+    (hf : findVar out n = some (.struct n ms)) (hm : ms.find? (·.name = m) = some (.base b)) :
+    slice1 out (.path [(n, []), (m, sl)]) ≠ .error .unspecified := by
+  simp only [slice1, ne_eq, not_true_eq_false, if_false]
+  split
+  · simp
+  · simp only [hf, hm, bind, Except.bind, pure, Except.pure]
+    rcases C15_hyperslab_applied_or_rejected b sl with ⟨_, _, h⟩ | ⟨_, h⟩ <;> simp [h]
+
+theorem C15_nested_slice_resolved (out : List Var) (n m k : Str) (sl : List PSlice) (ms : List Member)
+    (bs : List Base) (b : Base)
+    (hf : findVar out n = some (.struct n ms)) (hm : ms.find? (·.name = m) = some (.struct m bs))
+    (hk : bs.find? (·.name = k) = some b) :
+    slice1 out (.path [(n, []), (m, []), (k, sl)]) ≠ .error .unspecified := by
+  simp only [slice1, hf, hm, hk, ne_eq, not_true_eq_false, if_false]
+  split
+  · simp
+  · simp only [bind, Except.bind, pure, Except.pure]
+    rcases C15_hyperslab_applied_or_rejected b sl with ⟨_, _, h⟩ | ⟨_, h⟩ <;> simp [h]
+
+/-- **Which exception classes the guarded region raises, and a request that reaches each**: the
+    model's error type has these constructors that `guarded` produces — `ValueError` (a path without
+    a dot, a non-numeric index), `ConstraintExpressionError` (an over-long hyperslab, a hyperslab
+    outside the array, `dap4.ce=`), `KeyError` (an unknown extension, an unknown member),
+    `AttributeError` (`fix_shorthand` on the one-character call token `(`), and the unresolved
+    class (a path through a base variable).  Each is answered with the error document / an answer
+    (`C15_contained`); the check runs these and generated requests against the implementation and
+    reports the classes met (coverage table in the evidence). -/
+theorem C15_exception_classes_reached :
+    let ds : Dataset := ⟨cs!"d", [.base { name := cs!"a", ty := cs!"Int32", shape := [3], dims := [], data := [5, 6, 7] }]⟩
+    guarded ds (cs!"/d") [] = .error .valueError ∧
+    guarded ds (cs!"/d.dds") (cs!"a[x]") = .error .valueError ∧
+    guarded ds (cs!"/d.dds") (cs!"a[1:2:3:4]") = .error .ceError ∧
+    guarded ds (cs!"/d.dds") (cs!"a[3]") = .error .ceError ∧
+    guarded ds (cs!"/d.dds") (cs!"dap4.ce=a") = .error .ceError ∧
+    guarded ds (cs!"/d.foo") [] = .error .keyError ∧
+    guarded ds (cs!"/d.dds") (cs!"zz.p") = .error .keyError ∧
+    guarded ds (cs!"/d.dds") (cs!"(") = .error .attributeError ∧
+    guarded ds (cs!"/d.dds") (cs!"a.b") = .error .unspecified ∧
+    guarded ds (cs!"/d.dmr") [] = .error .unspecified := by
+  decide +kernel
+
 /-- the `.flat` part of well-formedness is what carries it: a wrapped `BaseType` left in `var.data` (the
     pinned `apply_projection`) makes the ASCII body raise while it is iterated -/
 theorem C15_body_wrapped_raises (fmt : Int → Str) :
@@ -156,5 +236,18 @@ example : runItem (ceEnv "dap4.ce=/a".toList) Gen.src_parse_ce_guard "key"
     = .error (.raised "ConstraintExpressionError") := by rfl
 open MiniPy in
 example : runItem (ceEnv "a&b>1".toList) Gen.src_parse_ce_guard "key" = .ok (.str [38]) := by rfl
+
+/-! the witness of the repaired finding `C15.hyperslab_outside_shape.200_then_body_raises` and its
+    neighbours: start at / beyond the extent, too many indices, stride 0, inverted range — all
+    answered with the error document; a last index beyond the extent is data -/
+example : handle intText dsA (cs!"/d.dods") (cs!"a[20]") = .errdoc (-1) := by decide +kernel
+example : handle intText dsA (cs!"/d.ascii") (cs!"a[3]") = .errdoc (-1) := by decide +kernel
+example : handle intText dsA (cs!"/d.dods") (cs!"a[0][0]") = .errdoc (-1) := by decide +kernel
+example : handle intText dsA (cs!"/d.dods") (cs!"a[0:0:2]") = .errdoc (-1) := by decide +kernel
+example : handle intText dsA (cs!"/d.dods") (cs!"a[2:1]") = .errdoc (-1) := by decide +kernel
+example : handle intText dsA (cs!"/d.dods") (cs!"a[1],a[1]") = .errdoc (-1) := by decide +kernel
+example : handle intText dsA (cs!"/d.dods") (cs!"a[1:20]")
+    = .ok .dods (.complete (cs!"Dataset {\n    Int32 a[a = 2];\n} d;\nData:\n6 7")) := by decide +kernel
+example : validSl 3 ⟨some 1, some 21, some 1⟩ = true ∧ validSl 3 ⟨some 3, some 4, some 1⟩ = false := by decide
 
 end Pydap.C15
